@@ -99,8 +99,8 @@ class Inject(SxContract):
 
 
 CONFIGS = {
-    "quick": [(3, 2, [([(0, 1)], []), ([], [(0, 2)]), ([(2, 0)], [(1, 2)]), ([(0, 1), (1, 2)], []), ([(1, 0)], [(2, 1), (0, 2)])])],
-    "thorough": [(3, 2, [([(0, 1)], []), ([], [(0, 2)]), ([(2, 0)], [(1, 2)]), ([(0, 1), (1, 2)], []), ([(1, 0)], [(2, 1), (0, 2)])]),
+    "quick": [(3, 2, [([(0, 1)], []), ([], [(0, 2)]), ([(2, 0)], [(1, 2)]), ([(0, 1), (1, 2)], []), ([(1, 0)], [(2, 1), (0, 2)]), ([(0, 1), (0, 2)], []), ([], [(2, 0), (2, 1)])])],
+    "thorough": [(3, 2, [([(0, 1)], []), ([], [(0, 2)]), ([(2, 0)], [(1, 2)]), ([(0, 1), (1, 2)], []), ([(1, 0)], [(2, 1), (0, 2)]), ([(0, 1), (0, 2)], []), ([], [(2, 0), (2, 1)])]),
                  (4, 2, [([(3, 0)], [(1, 2)]), ([(0, 1), (2, 3)], [(1, 2)]), ([(2, 0)], [(3, 1), (0, 3)]), ([], [(0, 1), (2, 3), (1, 3)])])],
 }
 
